@@ -171,7 +171,7 @@ def _gen_bv(rng, tier, defect_ops):
                 ot, og = _labels(rng, ids, k, has_taxa if rng.random() < 0.85 else not has_taxa, has_grp if rng.random() < 0.92 else not has_grp)
                 others.append({"cls": cls if rng.random() < 0.85 else rng.choice(["B", "E", "G"]), "raw": _rows(rng, k, kinds, nanrate, True), "taxa": ot, "grp": og})
             op = {"op": "concat", "others": others, "self_pos": rng.randint(0, len(others))}
-            n += sum(len(o["raw"]) for o in others)
+            if cls == "B": n += sum(len(o["raw"]) for o in others)      # the subclasses raise
         case["ops"].append(op)
     return case
 
@@ -420,6 +420,8 @@ def _expected(exp, op, cls):
         if r is None: return ("err",)
         return ("ok", _Exp(r, None if exp.taxa is None else _l_delete(exp.taxa, op["obj"]),
                            None if exp.grp is None else _l_delete(exp.grp, op["obj"]), exp.exact), True)
+    if nm in ("insert", "incorp") and isinstance(op["obj"], list) and any(not (-len(exp.rows) <= i <= len(exp.rows)) for i in op["obj"]):
+        return ("unspec",)          # numpy.insert does not validate an index *list* (negative entries below -n wrap around in the enlarged array)
     if nm in ("insert", "adjoin", "append", "incorp"):
         vs = [[_F(v) for v in r] for r in op["vals"]]
         k = len(vs)
@@ -585,6 +587,11 @@ def _pred_bv(case, out):
         snap = steps[k]
         tag = "step %d op=%s" % (k, op["op"])
         e = _expected(exp, op, cls)
+        if e[0] == "unspec":
+            if "exc" not in snap:
+                try: exp = _Exp([[_fr(h) for h in r] for r in snap["unscale"]], snap["taxa"], snap["grp"], exact=False)
+                except OverflowError: break
+            continue
         if e[0] == "err":
             if "exc" not in snap: bad.append("%s: invalid index accepted" % tag)
             continue
@@ -775,9 +782,15 @@ def describe(case, out):
             "labels": ("t" if case["taxa"] is not None else "-") + ("g" if case["grp"] is not None else "-"), "errors": min(nerr, 2),
             "defect_op": next((o["op"] for o in case["ops"] if o["op"] in _KNOWN_OPS), "none")}
 
-def shrink(case, fails):
-    """drop operations from the end, then from the front part, then traits are kept (column kinds matter)"""
+def shrink(case, fails0):
+    """drop operations from the end, then single operations, while the case still fails for a reason that is not a known finding"""
+    def fails(c):
+        try: o = run_impl(c)
+        except BaseException as e: o = {"exc": type(e).__name__, "msg": str(e)[:300]}
+        cl = pred(c, o)
+        return bool(cl) and classify(c, o, cl) is None
     cur = copy.deepcopy(case)
+    if not fails(cur): return cur
     while cur["ops"]:
         t_ = copy.deepcopy(cur); t_["ops"] = t_["ops"][:-1]
         if fails(t_): cur = t_
@@ -829,8 +842,12 @@ def _emit_bv(case, out):
     r0 = "(mkraw %s %s %s %s)" % (_colsf(case["raw"], t), E.nat(len(case["raw"])), _lab(case["taxa"]), _lab(case["grp"]))
     if "exc" in steps[0]: return "(case_check %s [] ObsErr [])" % r0
     items = []
+    ncur = steps[0]["shape"][0]
     for op, rec in zip(case["ops"], steps[1:]):
         nm = op["op"]
+        if nm in ("insert", "incorp") and isinstance(op["obj"], list) and any(not (-ncur <= i <= ncur) for i in op["obj"]):
+            break                   # numpy.insert with an unvalidated index list: not modelled, the history is compared up to here
+        if "exc" not in rec: ncur = rec["shape"][0]
         if nm == "select": o = "(OSelect %s)" % E.lst(op["ix"], E.z)
         elif nm == "delete": o = "(ODelete %s)" % _idx(op["obj"])
         elif nm == "remove": o = "(ORemove %s)" % _idx(op["obj"])
